@@ -47,6 +47,12 @@ class _NeedPartial(Exception):
     pass
 
 
+class _NeedLitGuess(Exception):
+    def __init__(self, name):
+        self.name = name
+        super().__init__(name)
+
+
 # ----------------------------------------------------------------------------------------------
 # types
 # ----------------------------------------------------------------------------------------------
@@ -55,7 +61,7 @@ SCALARS = ("T", "Z", "nat", "bool")
 
 def parse_type(s):
     s = s.strip()
-    if s in SCALARS or s in ("costvec", "obj"):
+    if s in SCALARS or s in ("costvec", "costvecb", "obj"):
         return s
     if s.startswith("list "):
         return ("list", parse_type(s[5:]))
@@ -67,6 +73,8 @@ def coq_type(t):
         return t
     if t == "costvec":
         return "(list T * Z)%type"
+    if t == "costvecb":
+        return "(list T * bool)%type"
     if isinstance(t, tuple) and t[0] == "list":
         inner = coq_type(t[1])
         return "(list %s)" % inner
@@ -134,6 +142,35 @@ def dotted(n):
     return None
 
 
+def attr_key(n):
+    """canonical text of an attribute path: self.vector, other.vector, self.features["precision"]"""
+    if isinstance(n, ast.Name):
+        return n.id
+    if isinstance(n, ast.Attribute):
+        b = attr_key(n.value)
+        return None if b is None else b + "." + n.attr
+    if isinstance(n, ast.Subscript):
+        sl = n.slice
+        if isinstance(sl, ast.Index):
+            sl = sl.value
+        if isinstance(sl, ast.Constant) and isinstance(sl.value, str) and re.fullmatch(r"\w+", sl.value):
+            b = attr_key(n.value)
+            return None if b is None else '%s["%s"]' % (b, sl.value)
+    return None
+
+
+def attr_var(key):
+    return re.sub(r"\W+", "_", key).strip("_")
+
+
+def append_target(s):
+    """`X.append(e)` as a statement -> (node of X, node of e), else None"""
+    if isinstance(s, ast.Expr) and isinstance(s.value, ast.Call) and isinstance(s.value.func, ast.Attribute) \
+            and s.value.func.attr == "append" and len(s.value.args) == 1 and not s.value.keywords:
+        return s.value.func.value, s.value.args[0]
+    return None
+
+
 def assigned_names(stmts):
     """Names bound by assignment / augmented assignment / loop targets anywhere in stmts (ordered)."""
     out = []
@@ -145,8 +182,17 @@ def assigned_names(stmts):
         elif isinstance(t, (ast.Tuple, ast.List)):
             for e in t.elts:
                 tgt(e)
+        elif isinstance(t, (ast.Attribute, ast.Subscript)) and attr_key(t) and "." in attr_key(t):
+            if attr_var(attr_key(t)) not in out:
+                out.append(attr_var(attr_key(t)))
 
     class V(ast.NodeVisitor):
+        def visit_Expr(self, n):
+            a = append_target(n)
+            if a:
+                tgt(a[0])
+            self.generic_visit(n)
+
         def visit_Assign(self, n):
             for t in n.targets:
                 tgt(t)
@@ -271,9 +317,21 @@ class FnTranslator:
         self.done = done                      # qualified name -> FnTranslator of already translated functions
         if "returns" not in spec:
             raise Unsupported("the spec gives no return type", node, self.qual)
-        self.ret_type = parse_type(spec["returns"])
+        self.ret_type = parse_type(spec["returns"]) if spec["returns"] != "writes" else None
         self.attrs = [(a, parse_type(t)) for a, t in spec.get("attrs", [])]
-        self.oracles = [(o, [parse_type(a) for a in args], parse_type(r)) for o, args, r in spec.get("oracles", [])]
+        self.writes = [(a, parse_type(t)) for a, t in spec.get("writes", [])]
+        self.oracles, self.oracle_kw = [], {}
+        for o, args, r in spec.get("oracles", []):
+            kws = [a.split("=")[0].strip() if "=" in a else None for a in args]
+            self.oracles.append((o, [parse_type(a.split("=")[-1]) for a in args], parse_type(r)))
+            self.oracle_kw[o] = kws
+        if spec["returns"] == "writes":
+            if not self.writes:
+                raise Unsupported("returns = writes, but the spec lists no written attribute", node, self.qual)
+            ts = [t for _, t in self.writes]
+            self.ret_type = ts[0] if len(ts) == 1 else None
+            for t in ts[1:]:
+                self.ret_type = ("prod", self.ret_type, t) if self.ret_type else t
         self.calls = dict(spec.get("calls", {}))
         self.partial = False
 
@@ -397,16 +455,21 @@ class FnTranslator:
             t = env[n.id]
             if t == "obj":
                 raise self.err("object %r used as a value (only its declared attributes can be read)" % n.id, n)
+            if n.id in self.appended and self.alias_context:
+                raise self.err("the list %r is appended to in this function and is aliased here" % n.id, n)
             return mangle(n.id), t
-        if isinstance(n, ast.Attribute):
-            d = dotted(n)
-            for a, t in self.attrs:
-                if a == d:
-                    if a.replace(".", "_") in self.shadowed_attrs:
-                        raise self.err("attribute %s read after being assigned" % d, n)
-                    return mangle(a.replace(".", "_")), t
+        if isinstance(n, (ast.Attribute, ast.Subscript)) and attr_key(n) and attr_key(n).split(".")[0].split("[")[0] in env \
+                and env[attr_key(n).split(".")[0].split("[")[0]] == "obj":
+            key = attr_key(n)
+            var = attr_var(key)
+            if var in env and (key in [a for a, _ in self.attrs] or key in [a for a, _ in self.writes]):
+                if var in self.appended and self.alias_context:
+                    raise self.err("the list %s is appended to in this function and is aliased here" % key, n)
+                return mangle(var), env[var]
+            if key in [a for a, _ in self.writes]:
+                raise self.err("attribute %s is read before it is certainly assigned" % key, n)
             raise self.err("attribute read %s has no declared type (attrs in the spec: %s)"
-                           % (d or ast.dump(n), [a for a, _ in self.attrs]), n)
+                           % (key, [a for a, _ in self.attrs]), n)
         if isinstance(n, ast.UnaryOp):
             if isinstance(n.op, ast.Not):
                 c, _ = self.expr(n.operand, env, "bool")
@@ -455,6 +518,17 @@ class FnTranslator:
             return self.binop(n.op, a, b, t, n), t
         if isinstance(n, ast.Subscript):
             return self.subscript(n, env)
+        if isinstance(n, ast.ListComp):
+            if len(n.generators) != 1 or n.generators[0].ifs or getattr(n.generators[0], "is_async", 0):
+                raise self.err("comprehension with a condition / several generators", n)
+            g = n.generators[0]
+            if isinstance(g.target, ast.Name):
+                return self.map_lambda([g.target.id], n.elt, [g.iter], env, n)
+            if isinstance(g.target, (ast.Tuple, ast.List)) and len(g.target.elts) == 2 \
+                    and all(isinstance(e, ast.Name) for e in g.target.elts) and isinstance(g.iter, ast.Call) \
+                    and dotted(g.iter.func) == "zip" and "zip" not in env and len(g.iter.args) == 2 and not g.iter.keywords:
+                return self.map_lambda([e.id for e in g.target.elts], n.elt, g.iter.args, env, n)
+            raise self.err("comprehension target / iterable", n)
         if isinstance(n, ast.Call):
             return self.call(n, env, want)
         raise self.err("expression %s" % type(n).__name__, n)
@@ -546,13 +620,60 @@ class FnTranslator:
         return isinstance(n, ast.UnaryOp) and isinstance(n.op, ast.USub) and isinstance(n.operand, ast.Constant) \
             and n.operand.value == 1 and not isinstance(n.operand.value, bool)
 
+    def map_lambda(self, lam_args, body, iters, env, node):
+        """list(map(lambda a, b: E, xs, ys)) / [E for a, b in zip(xs, ys)]: map over the zipped lists"""
+        if len(lam_args) != len(iters) or not 1 <= len(iters) <= 2:
+            raise self.err("map / comprehension over other than one or two lists", node)
+        codes, ets = [], []
+        for it in iters:
+            c, t = self.expr(it, env)
+            if not (isinstance(t, tuple) and t[0] == "list"):
+                raise self.err("map over a value of type %s" % (t,), it)
+            codes.append(c)
+            ets.append(t[1])
+        env2 = dict(env)
+        for a, t in zip(lam_args, ets):
+            if a in env:
+                raise self.err("lambda / comprehension variable %r shadows a bound name" % a, node)
+            env2[a] = t
+        saved = self.loop_targets
+        self.loop_targets = self.loop_targets | set(lam_args)
+        try:
+            e, te = self.no_partial(lambda: self.expr(body, env2), "a lambda / comprehension body", node)
+        finally:
+            self.loop_targets = saved
+        if is_lit(te):
+            raise self.err("lambda / comprehension body is a bare literal", node)
+        if len(iters) == 1:
+            return "(map (fun %s => %s) %s)" % (mangle(lam_args[0]), e, codes[0]), ("list", te)
+        return "(map (fun '(%s, %s) => %s) (combine %s %s))" % (mangle(lam_args[0]), mangle(lam_args[1]), e,
+                                                                 codes[0], codes[1]), ("list", te)
+
     def call(self, n, env, want):
-        if n.keywords:
-            raise self.err("keyword arguments in a call", n)
         f = dotted(n.func)
         if f is None:
             raise self.err("call of a computed function", n)
+        if n.keywords:
+            if f not in self.oracle_kw:
+                raise self.err("keyword arguments in a call", n)
+            kws = self.oracle_kw[f]
+            args = list(n.args) + [None] * (len(kws) - len(n.args))
+            for kw in n.keywords:
+                if kw.arg not in kws or kws.index(kw.arg) < len(n.args) or args[kws.index(kw.arg)] is not None:
+                    raise self.err("keyword argument %r of %s" % (kw.arg, f), n)
+                args[kws.index(kw.arg)] = kw.value
+            if any(a is None for a in args):
+                raise self.err("oracle %s called with missing arguments" % f, n)
+            n = ast.copy_location(ast.Call(func=n.func, args=args, keywords=[]), n)
         args = n.args
+        if f == "list" and len(args) == 1 and "list" not in env and isinstance(args[0], ast.Call) \
+                and dotted(args[0].func) == "map" and "map" not in env and not args[0].keywords \
+                and len(args[0].args) >= 2 and isinstance(args[0].args[0], ast.Lambda):
+            lam = args[0].args[0]
+            la = lam.args
+            if la.vararg or la.kwarg or la.kwonlyargs or la.defaults or getattr(la, "posonlyargs", []):
+                raise self.err("lambda with defaults / *args", lam)
+            return self.map_lambda([a.arg for a in la.args], lam.body, args[0].args[1:], env, n)
         if any(isinstance(a, ast.Starred) for a in args):
             raise self.err("starred argument", n)
         shadow = f.split(".")[0]
@@ -660,8 +781,8 @@ class FnTranslator:
         if isinstance(s, ast.Return):
             if rest:
                 raise self.err("unreachable statement after return", rest[0])
-            if s.value is None:
-                raise self.err("return without a value", s)
+            if s.value is None or self.spec["returns"] == "writes":
+                raise self.err("return without a value / return in a function whose result is its attribute writes", s)
             (c, _), pre = self.with_pre(lambda: self.expr(s.value, env, self.ret_type))
             return self.wrap(pre, ctx.ret_val(c, env), ctx, env)
         if isinstance(s, ast.Continue):
@@ -672,6 +793,8 @@ class FnTranslator:
             return ctx.loop.state(env, "None", bump=True)
         if isinstance(s, (ast.Assign, ast.AugAssign)):
             return self.assign(s, rest, env, ctx, k)
+        if append_target(s):
+            return self.append(s, rest, env, ctx, k)
         if isinstance(s, ast.If):
             return self.if_(s, rest, env, ctx, k)
         if isinstance(s, ast.For):
@@ -688,23 +811,85 @@ class FnTranslator:
             val = ast.BinOp(left=ast.Name(id=getattr(tgt, "id", None), ctx=ast.Load()), op=s.op, right=s.value)
             ast.copy_location(val, s)
             ast.copy_location(val.left, s)
-        if not isinstance(tgt, ast.Name):
-            raise self.err("assignment to %s (only local names can be assigned)" % type(tgt).__name__, s)
-        name = tgt.id
+        if isinstance(tgt, (ast.Attribute, ast.Subscript)) and attr_key(tgt) in [a for a, _ in self.writes] \
+                and isinstance(s, ast.Assign):
+            name = attr_var(attr_key(tgt))
+        elif not isinstance(tgt, ast.Name):
+            raise self.err("assignment to %s (only local names and the attributes listed under `writes` in the "
+                           "spec can be assigned)" % (attr_key(tgt) or type(tgt).__name__), s)
+        else:
+            name = tgt.id
         if name in self.loop_targets:
             raise self.err("assignment to the loop variable %r" % name, s)
         if env.get(name) == "obj" or name == "self":
             raise self.err("assignment to the object parameter %r" % name, s)
         want = env.get(name)
-        (c, t), pre = self.with_pre(lambda: self.expr(val, env, want if want in SCALARS else None))
+        # a bare name / attribute on the right-hand side makes the target an alias of it
+        # (harmless when the appends are all over: every append to the source precedes this statement, the
+        # target is never appended to, and the statement is not inside a loop)
+        src = attr_key(val) if isinstance(val, (ast.Name, ast.Attribute, ast.Subscript)) else None
+        src = (attr_var(src) if "." in src else src) if src else None
+        done_appending = src in self.appended and ctx.loop is None and name not in self.appended \
+            and all(ln < s.lineno for ln in self.append_lines.get(src, []))
+        self.alias_context = isinstance(val, (ast.Name, ast.Attribute, ast.Subscript)) and not done_appending
+        try:
+            (c, t), pre = self.with_pre(lambda: self.expr(val, env, want if want in SCALARS else None))
+        finally:
+            self.alias_context = False
+        if name in self.appended and not self.fresh_list_expr(val):
+            raise self.err("%r is appended to in this function but is bound here to a list that may be shared" % name, s)
         if is_lit(t):
-            raise self.err("assignment of a bare integer literal to %r: its type (number / marker / index) is not "
-                           "determined; write a float literal or declare the local" % name, s)
+            # a bare integer literal: number, integer marker or index?  Python's int is exact in all three,
+            # so the first typing (T, Z, nat in this order) under which the whole function is well typed is used
+            if name not in self.lit_guess:
+                raise _NeedLitGuess(name)
+            c, t = self.coerce(c, t, self.lit_guess[name], s)
         if want is not None and want != t:
             raise self.err("local %r changes its type from %s to %s" % (name, want, t), s)
         env2 = dict(env)
         env2[name] = t
         inner = "let %s := %s in\n%s" % (mangle(name), c, self.block(rest, env2, ctx, k))
+        return self.wrap(pre, inner, ctx, env)
+
+    @staticmethod
+    def fresh_list_expr(v):
+        """expressions that build a new list object"""
+        if isinstance(v, (ast.List, ast.ListComp)):
+            return True
+        if isinstance(v, ast.Call) and dotted(v.func) == "list" and len(v.args) == 1:
+            return True
+        if isinstance(v, ast.Subscript) and isinstance(v.slice, ast.Slice):
+            return True
+        return False
+
+    def append(self, s, rest, env, ctx, k):
+        """xs.append(e) on a list built in this function (never shared): xs becomes xs ++ [e]; appending the
+        feasibility marker (bool / integer) to a list of numbers gives a signed-cost vector (list, marker)"""
+        tgt, arg = append_target(s)
+        key = attr_key(tgt)
+        if key is None:
+            raise self.err("append to a computed target", s)
+        name = attr_var(key) if "." in key else key
+        if name not in env:
+            raise self.err("append to %s, which is not certainly bound here" % key, s)
+        if name not in self.appended:
+            raise AssertionError("append target not pre-scanned")
+        t = env[name]
+        if not (isinstance(t, tuple) and t[0] == "list"):
+            raise self.err("append to a value of type %s" % (t,), s)
+        (c, ta), pre = self.with_pre(lambda: self.expr(arg, env))
+        if is_lit(ta):
+            c, ta = self.coerce(c, ta, t[1], arg)
+        env2 = dict(env)
+        if ta == t[1]:
+            code = "(%s ++ [%s])" % (mangle(name), c)
+        elif t == ("list", "T") and ta == "bool":
+            code, env2[name] = "(%s, %s)" % (mangle(name), c), "costvecb"
+        elif t == ("list", "T") and ta == "Z":
+            code, env2[name] = "(%s, %s)" % (mangle(name), c), "costvec"
+        else:
+            raise self.err("append of a %s to a list of %s" % (ta, t[1]), s)
+        inner = "let %s := %s in\n%s" % (mangle(name), code, self.block(rest, env2, ctx, k))
         return self.wrap(pre, inner, ctx, env)
 
     def lift(self, rest, env, ctx, k):
@@ -724,7 +909,7 @@ class FnTranslator:
 
     def attr_of(self, v):
         for a, _ in self.attrs:
-            if a.replace(".", "_") == v:
+            if attr_var(a) == v:
                 return a
         return None
 
@@ -955,10 +1140,23 @@ class FnTranslator:
             if extra not in names:
                 raise self.err("the spec types a parameter %r that the function does not have" % extra, self.node)
         for attr, t in self.attrs:
-            out.append((attr.replace(".", "_"), t, "attr"))
+            out.append((attr_var(attr), t, "attr"))
         return out
 
-    def translate(self):
+    def translate(self, guesses=None):
+        self.lit_guess = dict(guesses or {})
+        try:
+            return self._translate_modes()
+        except _NeedLitGuess as g:
+            errs = []
+            for t in ("T", "Z", "nat"):
+                try:
+                    return self.translate(dict(self.lit_guess, **{g.name: t}) if False else {**(guesses or {}), g.name: t})
+                except Unsupported as e:
+                    errs.append(e)
+            raise errs[0]
+
+    def _translate_modes(self):
         for partial in (False, True):
             self.partial = partial
             self.reset()
@@ -979,12 +1177,39 @@ class FnTranslator:
             if nme in env:
                 raise self.err("parameter / attribute name clash on %r" % nme, self.node)
             env[nme] = t
-        if has_node(self.node.body, (ast.FunctionDef, ast.AsyncFunctionDef, ast.ClassDef, ast.Lambda, ast.Global,
+        if has_node(self.node.body, (ast.FunctionDef, ast.AsyncFunctionDef, ast.ClassDef, ast.Global,
                                      ast.Nonlocal, ast.Yield, ast.YieldFrom, ast.Await)):
-            raise self.err("nested function / lambda / global / yield", self.node)
+            raise self.err("nested function / global / yield", self.node)
+        self.alias_context = False
+        # lists that are appended to must be built in this function by every assignment to them
+        self.appended, self.append_lines = set(), {}
+        for st_ in ast.walk(self.node):
+            a = append_target(st_)
+            if a:
+                key = attr_key(a[0])
+                if key is None:
+                    raise self.err("append to a computed target", st_)
+                self.appended.add(attr_var(key) if "." in key else key)
+                self.append_lines.setdefault(attr_var(key) if "." in key else key, []).append(st_.lineno)
+        for nme, _, _ in plist:
+            if nme in self.appended:
+                raise self.err("append to the parameter / attribute %r (a list the caller shares)" % nme, self.node)
         ctx = Ctx(self)
 
         def fall_off(e):
+            if self.spec["returns"] == "writes":
+                vals = []
+                for a, t in self.writes:
+                    v = attr_var(a)
+                    if v not in e:
+                        raise self.err("attribute %s is not certainly assigned at the end of the function" % a, self.node)
+                    if e[v] != t:
+                        raise self.err("attribute %s ends with type %s, the spec says %s" % (a, e[v], t), self.node)
+                    vals.append(mangle(v))
+                code = vals[0]
+                for v in vals[1:]:
+                    code = "(%s, %s)" % (code, v)
+                return ctx.ret_val(code, e)
             raise self.err("the function can fall off its end without a return", self.node)
         body = self.block(list(self.node.body), env, ctx, fall_off)
         params = " ".join("(%s : %s)" % (mangle(n), coq_type(t)) for n, t, _ in plist if t != "obj")
